@@ -71,6 +71,8 @@ pub enum Req {
     /// list the documents (with capability kind) or the author keys of the store
     ListDocs,
     ListAuthors,
+    /// the set of content hashes the store reports for garbage-collection protection
+    Hashes,
 }
 
 #[derive(Serialize, Deserialize, Clone, Debug)]
@@ -149,6 +151,7 @@ enum Reply {
     Peers(Result<Option<Vec<[u8; 32]>>, String>),
     /// (id, kind: 1 write / 2 read / 0 for authors), sorted
     List(Result<Vec<([u8; 32], u8)>, String>),
+    Hashes(Result<std::collections::BTreeSet<[u8; 32]>, String>),
 }
 
 type Fut = Pin<Box<dyn Future<Output = Reply>>>;
@@ -164,6 +167,7 @@ enum Expect {
     Policy(Vec<u8>),
     Peers(Option<Vec<[u8; 32]>>),
     List(Vec<([u8; 32], u8)>),
+    Hashes(std::collections::BTreeSet<[u8; 32]>),
     Secret(bool),
     AnyOk,
     Store,
@@ -214,12 +218,12 @@ impl Scenario for ActorScen {
                 // imports, opens/closes, writes, deletions, secret export dominate
                 *rng.pick(&[0u64, 1, 2, 6, 12, 13, 14, 15, 18, 36, 36, 36, 36, 37, 37, 20, 32, 33, 33, 38, 39])
             } else if self.removal_focus {
-                *rng.pick(&[0u64, 1, 2, 3, 6, 7, 12, 13, 26, 33, 34, 36, 38, 38, 38, 38, 39])
+                *rng.pick(&[0u64, 1, 2, 3, 6, 7, 12, 13, 20, 26, 33, 34, 36, 38, 38, 38, 38, 39, 48, 48])
             } else if self.crash_focus {
                 // opens, writes, deletions, remote inserts, reconciliation, reads that commit, flushes
                 *rng.pick(&[0u64, 0, 1, 6, 12, 13, 14, 15, 16, 17, 18, 19, 20, 21, 24, 25, 29, 26, 38, 39, 39, 40, 42, 46, 47])
             } else {
-                rng.below(48)
+                rng.below(49)
             };
             let req = match roll {
                 0..=5 => Req::Open { d, sync: rng.chance(1, 2), sub: rng.chance(1, 4) },
@@ -244,13 +248,14 @@ impl Scenario for ActorScen {
                 45 => Req::HasNews { d, a: rng.below(3) as u8, ts: rng.range(0, 14) },
                 46 => Req::ListDocs,
                 47 => Req::ListAuthors,
+                48 => Req::Hashes,
                 _ => if i > n / 2 && rng.chance(1, 3) && !self.crash_focus { Req::Shutdown } else { Req::Flush },
             };
             if matches!(req, Req::Shutdown) {
                 if shut { continue; }
                 shut = true;
             }
-            let is_read = matches!(req, Req::GetExact { .. } | Req::GetState { .. } | Req::GetPolicy { .. } | Req::GetPeers { .. } | Req::HasNews { .. } | Req::ListDocs | Req::ListAuthors);
+            let is_read = matches!(req, Req::GetExact { .. } | Req::GetState { .. } | Req::GetPolicy { .. } | Req::GetPeers { .. } | Req::HasNews { .. } | Req::ListDocs | Req::ListAuthors | Req::Hashes);
             if is_read && rng.chance(1, 5) {
                 steps.push(AStep::SendDropReply { client, req });
             } else {
@@ -370,6 +375,23 @@ fn submit(h: &SyncHandle, req: &Req, streams: &mut Vec<Stream>, idx: usize, expe
         Req::GetPolicy { d } => Box::pin(async move { Reply::Policy(e2s(h.get_download_policy(w.doc_id(d)).await).map(|p| postcard::to_stdvec(&p).unwrap_or_default())) }),
         Req::RegisterPeer { d, peer } => Box::pin(async move { Reply::Unit(e2s(h.register_useful_peer(w.doc_id(d), w.peers[peer as usize]).await)) }),
         Req::GetPeers { d } => Box::pin(async move { Reply::Peers(e2s(h.get_sync_peers(w.doc_id(d)).await)) }),
+        Req::Hashes => Box::pin(async move {
+            match h.content_hashes().await {
+                Err(e) => Reply::Hashes(Err(format!("{e:#}"))),
+                Ok(it) => {
+                    let mut out = std::collections::BTreeSet::new();
+                    for r in it {
+                        match r {
+                            Ok(hash) => {
+                                out.insert(*hash.as_bytes());
+                            }
+                            Err(e) => return Reply::Hashes(Err(format!("{e:#}"))),
+                        }
+                    }
+                    Reply::Hashes(Ok(out))
+                }
+            }
+        }),
         Req::ListDocs => Box::pin(async move {
             let (tx, mut rx) = irpc::channel::mpsc::channel::<RpcResult<iroh_docs::api::protocol::ListResponse>>(64);
             if let Err(e) = h.list_replicas(tx).await {
@@ -633,6 +655,15 @@ fn model_apply(m: &mut [MDoc], req: &Req, clock: u64, alive: &mut bool, stream_e
             let w = world();
             Expect::Peers(if dm.peers.is_empty() { None } else { Some(dm.peers.iter().map(|p| w.peers[*p as usize]).collect()) })
         }
+        Req::Hashes => {
+            let mut v = std::collections::BTreeSet::new();
+            for dm in m.iter().filter(|dm| dm.cap.is_some()) {
+                for e in dm.doc.0.values() {
+                    v.insert(*content(e.c).0.as_bytes());
+                }
+            }
+            Expect::Hashes(v)
+        }
         Req::ListDocs => {
             let w = world();
             let mut v: Vec<([u8; 32], u8)> = m.iter().enumerate().filter_map(|(d, dm)| dm.cap.map(|wr| (w.doc_id(d as u8).to_bytes(), if wr { 1u8 } else { 2 }))).collect();
@@ -666,7 +697,7 @@ fn check_reply_focus(idx: usize, req: &Req, expect: &Expect, reply: Reply, focus
     } else if cap_focus {
         matches!(req, Req::InsertLocal { .. } | Req::DeletePrefix { .. } | Req::ExportSecret { .. } | Req::Import { .. } | Req::Shutdown)
     } else if removal_focus {
-        matches!(req, Req::Drop { .. } | Req::Open { .. } | Req::GetState { .. } | Req::InsertLocal { .. } | Req::GetExact { .. } | Req::Import { .. } | Req::Shutdown)
+        matches!(req, Req::Drop { .. } | Req::Open { .. } | Req::GetState { .. } | Req::InsertLocal { .. } | Req::GetExact { .. } | Req::Import { .. } | Req::Hashes | Req::Shutdown)
     } else {
         true
     };
@@ -694,6 +725,7 @@ fn check_reply(idx: usize, req: &Req, expect: &Expect, reply: Reply) -> Res<Opti
         Reply::Policy(r) => r.is_ok(),
         Reply::Peers(r) => r.is_ok(),
         Reply::List(r) => r.is_ok(),
+        Reply::Hashes(r) => r.is_ok(),
     };
     match (expect, reply) {
         (Expect::Any, _) => Ok(None),
@@ -708,6 +740,7 @@ fn check_reply(idx: usize, req: &Req, expect: &Expect, reply: Reply) -> Res<Opti
             if is_ok { Ok(None) } else { Err(bad(format!("failed ({r:?}) although all earlier requests make it valid").chars().take(400).collect())) }
         }
         (Expect::Bool(b), Reply::Bool(Ok(g))) => if g == *b { Ok(None) } else { Err(bad(format!("returned {g}, the earlier requests say {b}"))) },
+        (Expect::Hashes(want), Reply::Hashes(Ok(g))) => if g == *want { Ok(None) } else { Err(bad(format!("reported {} distinct content hashes, the entries held in all documents have {}", g.len(), want.len()))) },
         (Expect::List(want), Reply::List(Ok(g))) => if g == *want { Ok(None) } else { Err(bad(format!("listed {} items, the earlier requests give {} (or kinds differ)", g.len(), want.len()))) },
         (Expect::Policy(want), Reply::Policy(Ok(g))) => if g == *want { Ok(None) } else { Err(bad("returned a policy that is not the last one set (or the default)".to_string())) },
         (Expect::Peers(want), Reply::Peers(Ok(g))) => if g == *want { Ok(None) } else { Err(bad(format!("returned peers {:?}, the registrations so far give {:?} (most recent first, first id byte shown)", g.map(|v| v.iter().map(|p| p[0]).collect::<Vec<_>>()), want.as_ref().map(|v| v.iter().map(|p| p[0]).collect::<Vec<_>>())))) },
@@ -751,6 +784,7 @@ fn req_name(r: &Req) -> &'static str {
         Req::HasNews { .. } => "has-news",
         Req::ListDocs => "list-docs",
         Req::ListAuthors => "list-authors",
+        Req::Hashes => "content-hashes",
     }
 }
 
